@@ -219,7 +219,7 @@ def _filter_names() -> list:
 
 @st.composite
 def filter_cells(draw):
-    r = draw(st.randoms(use_true_random=False))
+    r = core.rng(draw)
     names = _filter_names()
     nargs = r.choice([0, 1, 1, 2, 2, 3])
     kwargs = {}
@@ -238,7 +238,7 @@ def filter_cells(draw):
 
 @st.composite
 def tag_cells(draw):
-    r = draw(st.randoms(use_true_random=False))
+    r = core.rng(draw)
     return {
         "kind": "tag",
         "shape": r.choice(TAG_SHAPES + EXTRA_TAG_SHAPES),
@@ -265,7 +265,7 @@ def _tmpl_profile(cfg) -> gg.Profile:
 
 @st.composite
 def templates(draw):
-    r = draw(st.randoms(use_true_random=False))
+    r = core.rng(draw)
     cfg = envs.gen_cfg(r)
     prof = _tmpl_profile(cfg)
     main = gg.Gen(r, prof).template()
@@ -279,7 +279,7 @@ def templates(draw):
 
 @st.composite
 def sources(draw):
-    r = draw(st.randoms(use_true_random=False))
+    r = core.rng(draw)
     m = gm.Mut(r)
     c = r.random()
     if c < 0.45:
